@@ -169,13 +169,14 @@ def lock_case(ctx, ts):
     # between lock: begin/end around ts, including begin == end
     for verify in (False, True):
         tail = [b'\x01'] if verify else []
-        for db in (-2, -1, 0):
-            for de in (0, 1, 2):
+        for db in (-2, -1, 0, 1, 2):
+            for de in (-2, -1, 0, 1, 2):
+                # all orders of the two bounds: begin > end (and begin == end) is an empty window
                 b, e = ts + db, ts + de
-                if b < 0:
+                if b < 0 or e < 0:
                     continue
                 lock = T.make_timestamp_between_lock(b, e, verify).bytes
-                for t in range(max(b - 1, 0), e + 2):
+                for t in range(max(min(b, e) - 1, 0), max(b, e) + 2):
                     for dn in (-1, 0, None):
                         now = t if dn is None else t - (DEF_THR + dn)
                         env.Clock.now = now
@@ -196,7 +197,7 @@ def blocks(tier, seed):
     return [
         Block('CHECK_TIMESTAMP_grid', anchors, cts_case, 't x c in t+-2 x every encoding 1..9 bytes x thr x now around thr', nshards=len(anchors)),
         Block('CHECK_EPOCH_grid', anchors, ce_case, 'c x encodings x ethr x now around ethr', nshards=len(anchors)),
-        Block('timestamp_lock_builders', ts_list, lock_case, 'after / before / between locks through run_auth_scripts', nshards=len(ts_list)),
+        Block('timestamp_lock_builders', ts_list, lock_case, 'after / before / between locks (both orders of the bounds) through run_auth_scripts', nshards=len(ts_list)),
     ]
 
 
